@@ -778,6 +778,122 @@ Section DispatchProofs.
     destruct (first_index (decl_matches vs b) dss); eauto.
   Qed.
 
+  (* ---- looking at a built function ------------------------------------------------------------------------ *)
+  (* the table is what createDispatch makes of the builders (true of a function that has just been resolved) *)
+  Definition fn_coherent (st : fstate ty bty) : Prop := create_all (f_builders st) 0 = inr (f_table st).
+
+  Lemma access_pure : forall (st : fstate ty bty) a, fn_coherent st -> fst (access st a) = st.
+  Proof.
+    intros [bs tb] a Hc. unfold fn_coherent in Hc. cbn [f_builders f_table] in Hc.
+    destruct a as [ |i|i|i|i|i|i|i| ]; cbn [access]; unfold with_disp; cbn [f_table f_builders];
+      try (destruct (nth_error tb i); reflexivity); try reflexivity.
+    rewrite Hc. reflexivity.
+  Qed.
+
+  Lemma run_accessors_pure : forall accs (st : fstate ty bty), fn_coherent st -> fst (run_accessors st accs) = st.
+  Proof.
+    induction accs as [|a r IH]; intros st Hc; cbn [run_accessors]; [reflexivity|].
+    pose proof (access_pure st a Hc) as Ha. destruct (access st a) as [st1 o]. cbn [fst] in Ha. subst st1.
+    pose proof (IH st Hc) as Hr. destruct (run_accessors st r) as [st2 os]. exact Hr.
+  Qed.
+
+  (* asking again gives the same answers: the answers of a sequence of accessors are those of its parts, each asked of
+     the function as it was resolved *)
+  Lemma run_accessors_app : forall a1 a2 (st : fstate ty bty), fn_coherent st ->
+    snd (run_accessors st (a1 ++ a2)) = snd (run_accessors st a1) ++ snd (run_accessors st a2).
+  Proof.
+    induction a1 as [|a r IH]; intros a2 st Hc; cbn [app run_accessors]; [reflexivity|].
+    pose proof (access_pure st a Hc) as Ha. destruct (access st a) as [st1 o]. cbn [fst] in Ha. subst st1.
+    pose proof (IH a2 st Hc) as Hr.
+    destruct (run_accessors st (r ++ a2)) as [s2 os2]. destruct (run_accessors st r) as [s1 os1].
+    cbn [snd] in *. rewrite Hr. reflexivity.
+  Qed.
+
+  Lemma resolved_state_coherent : forall ss (st : fstate ty bty),
+    resolved_state ss = Some st -> fn_coherent st /\ f_builders st = ss.
+  Proof.
+    intros ss st H. unfold resolved_state in H. destruct (create_all ss 0) as [e|ds] eqn:Hc; [discriminate|].
+    inversion H; subst st. unfold fn_coherent. cbn [f_builders f_table]. auto.
+  Qed.
+
+  (* whatever was looked at, every call does what it did before *)
+  Theorem introspection_pure : forall (st : fstate ty bty) accs vs b, fn_coherent st ->
+    call inst binst (f_table (fst (run_accessors st accs))) vs b = call inst binst (f_table st) vs b.
+  Proof. intros st accs vs b Hc. now rewrite run_accessors_pure. Qed.
+
+  Lemma fn_built_coherent : forall dss ss ds, run_all dss 0 = inr ss -> fn_built dss ds -> fn_coherent (mkF ss ds).
+  Proof.
+    intros dss ss ds Hr (Hb & _). unfold build_function in Hb. rewrite Hr in Hb. exact Hb.
+  Qed.
+
+  (* ... which is first-match dispatch by the declarations *)
+  Theorem dispatch_after_introspection : forall dss ss ds accs vs b,
+    run_all dss 0 = inr ss -> fn_built dss ds -> len vs < max_int64 ->
+    call inst binst (f_table (fst (run_accessors (mkF ss ds) accs))) vs b =
+    match first_index (decl_matches vs b) dss with Some i => RBody i | None => RArgError end.
+  Proof.
+    intros dss ss ds accs vs b Hr Hf Hlv.
+    rewrite (introspection_pure (mkF ss ds) accs vs b (fn_built_coherent dss ss ds Hr Hf)). cbn [f_table].
+    exact (call_is_first_match dss ds vs b Hf Hlv).
+  Qed.
+
+  (* Resolve once more never fails on a resolved function *)
+  Lemma resolve_again_ok : forall (st : fstate ty bty), fn_coherent st -> access st AResolve = (st, OResolved true).
+  Proof.
+    intros [bs tb] Hc. unfold fn_coherent in Hc. cbn [f_builders f_table] in Hc. cbn [access f_builders]. rewrite Hc. reflexivity.
+  Qed.
+
+  (* what Parameters() tells about a dispatch is its declaration: one parameter per declared one, with the declared
+     type, and captures-rest exactly on a repeated one *)
+  Definition is_rep (p : paramT) : bool := match p with Rep _ | ReqRep _ => true | _ => false end.
+  Definition describe (d : list paramT) : list (ty * bool) := map (fun p => (param_ty p, is_rep p)) d.
+
+  Lemma closed_nonempty : forall d : list paramT, closed d = true -> (1 <= length d)%nat.
+  Proof. destruct d; cbn [closed length]; [discriminate|lia]. Qed.
+
+  Lemma params_from_describe : forall (d : list paramT) p i, wf_from p d = true ->
+    params_from (tys d) i (if closed d then Some (i + length d - 1)%nat else None) = describe d.
+  Proof.
+    induction d as [|a d IH]; intros p i Hwf; [reflexivity|].
+    destruct a as [t|t|t|t]; cbn [tys map param_ty params_from closed describe is_rep length wf_from] in *.
+    - destruct p; [|discriminate]. fold (tys d). fold (describe d). destruct (closed d) eqn:Hc.
+      + pose proof (closed_nonempty d Hc) as Hn. pose proof (IH _ (S i) Hwf) as H.
+        replace (i + S (length d) - 1)%nat with (S i + length d - 1)%nat by lia. rewrite H.
+        destruct (Nat.eqb_spec i (S i + length d - 1)); [lia|reflexivity].
+      + pose proof (IH _ (S i) Hwf) as H. rewrite H. reflexivity.
+    - assert (Hwf' : wf_from 1 d = true) by (destruct p as [|[|p]]; [exact Hwf|exact Hwf|discriminate]).
+      fold (tys d). fold (describe d). destruct (closed d) eqn:Hc.
+      + pose proof (closed_nonempty d Hc) as Hn. pose proof (IH _ (S i) Hwf') as H.
+        replace (i + S (length d) - 1)%nat with (S i + length d - 1)%nat by lia. rewrite H.
+        destruct (Nat.eqb_spec i (S i + length d - 1)); [lia|reflexivity].
+      + pose proof (IH _ (S i) Hwf') as H. rewrite H. reflexivity.
+    - assert (Hwf' : wf_from 2 d = true) by (destruct p as [|[|p]]; [exact Hwf|exact Hwf|discriminate]).
+      rewrite (wf_phase2 d 0%nat Hwf'). cbn [map params_from length].
+      replace (i + 1 - 1)%nat with i by lia. rewrite Nat.eqb_refl. reflexivity.
+    - assert (Hwf' : wf_from 2 d = true) by (destruct p as [|p]; [exact Hwf|discriminate]).
+      rewrite (wf_phase2 d 0%nat Hwf'). cbn [map params_from length].
+      replace (i + 1 - 1)%nat with i by lia. rewrite Nat.eqb_refl. reflexivity.
+  Qed.
+
+  Theorem parameters_describe_declaration : forall ops (d : dispT),
+    build ops = Ok d -> len ops < max_int64 -> parameters_of_sig (d_sig d) = describe (params_of ops).
+  Proof.
+    intros ops d H Hl. destruct (build_spec ops d H) as (s & Hrun & Hcr).
+    destruct (run_ops_params ops b_init s Hrun) as (Hwf & Hty & _ & Hmax & _); cbn [b_min b_max b_init]; try lia.
+    cbn [b_types b_max b_init app] in Hty, Hmax.
+    assert (Hsig : s_types (d_sig d) = tys (params_of ops) /\
+                   s_max (d_sig d) = if closed (params_of ops) then max_int64 else 0 + len (params_of ops)).
+    { unfold create in Hcr. destruct (b_max s <? b_min s); [discriminate|].
+      destruct (b_fn2 s); inversion Hcr; subst d; cbn [d_sig s_types s_max]; auto. }
+    destruct Hsig as [Hs1 Hs2]. unfold parameters_of_sig. rewrite Hs1, Hs2.
+    assert (Hlen : length (tys (params_of ops)) = length (params_of ops)) by apply map_length. rewrite Hlen.
+    pose proof (length_params_of ops) as Hlp.
+    pose proof (params_from_describe (params_of ops) _ 0%nat Hwf) as Hd. cbn [Nat.add] in Hd.
+    destruct (closed (params_of ops)).
+    - destruct (Z.ltb_spec (len (params_of ops)) max_int64) as [_|Hge]; [exact Hd|lia].
+    - rewrite Z.add_0_l, Z.ltb_irrefl. exact Hd.
+  Qed.
+
   (* ---- new ------------------------------------------------------------------------------------------ *)
   Variable tname : ty -> str.
   Variable init_parts : ty -> option (option ty * list val).
@@ -930,6 +1046,9 @@ Arguments arity_ok {ty val} d vs.
 Arguments slots {ty val} inst ts vs.
 Arguments decl_matches {ty val bty blk} inst binst vs b ops.
 Arguments fn_built {ty bty} dss ds.
+Arguments fn_coherent {ty bty} st.
+Arguments is_rep {ty} p.
+Arguments describe {ty} d.
 Arguments created_type {ty val} init_parts t.
 Arguments target {ty val} init_parts load_type r.
 Arguments no_fault {val} o.
